@@ -81,11 +81,14 @@ def agree(M, axes, mode_idx, rel_idx):
 def agree_T(M, axes, A3, b3):
     """R_T (C04): on every known machine axis, machine == (A·resolve(position) + b)[axis]"""
     res = [ITE(as_opt(c).none, z3.RealVal(0), as_opt(c).inner.val) for c in axes.items()]
+    unk = [as_opt(c).none for c in axes.items()]
     cs = []
     for i, A in enumerate(AXES):
         img = b3[i].val + sum(A3[i][j].val * res[j] for j in range(3))
         m = M.c[A]
-        cs.append(IMP(NOT(m.none), AND(m.inner.finite, m.inner.val == img)))
+        # the image is defined only if it does not depend on a coordinate the builder does not know (after homing / probing)
+        defined = AND(*[IMP(unk[j], A3[i][j].val == 0) for j in range(3)])
+        cs.append(IMP(AND(NOT(m.none), defined), AND(m.inner.finite, m.inner.val == img)))
     return AND(*cs)
 
 
